@@ -96,12 +96,17 @@ def sample_row(pos, fault):
     if pos % 5 == 3:
         # the float file of position 4 is linear in every channel: MEF from the log-amplified beads would be a (correct) row error
         r['units'] = {FL1: 'RFI', FL2: fl2_units}
+    if pos % 5 in (2, 3):
+        # rows 3 and 4 ask for no MEF and name a bead row that failed / has no MEF values: no fault as long as no MEF is asked for
+        r['units'] = {FL1: 'RFI', FL2: fl2_units}
+        r['beads'] = 'B_NF' if pos % 5 == 3 else 'B_NOVAL'
     if fault == 'ok':
         return r
-    if pos % 5 == 3 and (fault.startswith('mef-') or fault in ('other-instrument', 'amp-differs', 'voltage-differs', 'voltage-zero')):
-        # these faults only exist for a row that asks for MEF: at this position use an integer (log-amplified) file and ask for it
-        r['file'] = 'cell_4.fcs'
+    if pos % 5 in (2, 3) and (fault.startswith('mef-') or fault in ('other-instrument', 'amp-differs', 'voltage-differs', 'voltage-zero')):
+        # these faults only exist for a row that asks for MEF: at these positions use an integer (log-amplified) file and ask for it
+        r['file'] = 'cell_4.fcs' if pos % 5 == 3 else r['file']
         r['units'] = {FL1: 'MEF', FL2: fl2_units}
+        r['beads'] = 'B_OK'
     if fault.startswith('units='):
         r['units'] = {FL1: 'RFI', FL2: fault[6:]}
         return r
